@@ -36,7 +36,7 @@ func (e *Engine) Probe(realm string) (elapsed time.Duration, err error) {
 	go func() { attachErr <- e.R.Attach(r) }()
 	patience := 5 * time.Minute // virtual; only passes if nothing else can run
 	if e.Realtime {
-		patience = 10 * time.Second
+		patience = 80 * time.Second // longer than the result-retry period: a session handler (the meta session included) may legitimately be held back that long
 	}
 	send := func(m wamp.Message) error {
 		t := time.NewTimer(patience)
